@@ -623,6 +623,11 @@ def check_C19(ctx):
         ctx.rule("SET-DRAIN").floor("member_reads[%s]" % cfg, 1, cfg)
     for cfg, F in ctx.configs(["K3"]):
         rset.rule_set_inproc(ctx, cfg, F)
+    # shared memory: each backend keeps (pointer, length, backing object) coupled, also for received and cloned regions
+    for cfg, F in ctx.configs(["K1", "K2"]):
+        ipcl.rule_shm_couple(ctx, cfg, F)
+    for cfg, F in ctx.configs(["K3"]):
+        ipcl.rule_shm_inproc(ctx, cfg, F)
     ctx.assume("the macOS and Windows backends cannot be type-checked on this host and are out of scope")
 
 
